@@ -2,8 +2,12 @@
 //! operation, one op line (input for the Lean model driver) and one result line.
 mod fmt;
 mod rng;
+mod statefmt;
+mod statestream;
+mod txgen;
 mod vmgen;
 mod vmstreams;
+mod world;
 
 use std::io::Write;
 
@@ -57,6 +61,16 @@ fn main() {
                 "codec" => vmstreams::codec(&mut r, count, thorough, &mut out),
                 "weight" => vmstreams::weight(&mut r, count, thorough, &mut out),
                 "exec" => vmstreams::exec(&mut r, count, thorough, &mut out),
+                "apply" | "seal" | "chain" => {
+                    let em = match stream {
+                        "apply" => statestream::Emphasis { mutate: 300, pool_ops: 6, stake_ops: 8, blocks: 2, chain_ops: false },
+                        "seal" => statestream::Emphasis { mutate: 80, pool_ops: 30, stake_ops: 2, blocks: 4, chain_ops: false },
+                        _ => statestream::Emphasis { mutate: 100, pool_ops: 10, stake_ops: 6, blocks: 4, chain_ops: true },
+                    };
+                    let stats = statestream::run(&mut r, count, &em, &mut out);
+                    let js: Vec<String> = stats.iter().map(|(k, v)| format!("\"{}\":{}", k, v)).collect();
+                    println!("{{\"stats\":{{{}}}}}", js.join(","));
+                }
                 _ => {
                     eprintln!("unknown stream {}", stream);
                     std::process::exit(2);
@@ -64,6 +78,11 @@ fn main() {
             }
             println!("{{\"stream\":\"{}\",\"lines\":{},\"discarded\":{}}}", stream, out.lines, out.discarded);
             out.finish();
+        }
+        "keygen" => {
+            for _ in 0..8 {
+                println!("{}", hex::encode(tmelcrypt::Ed25519SK::generate().0));
+            }
         }
         _ => {
             eprintln!("unknown command");
